@@ -18,7 +18,7 @@ const key = "gin/middleware.go:SentinelMiddleware.func1"
 func main() {
 	probe.Init()
 	gin.SetMode(gin.ReleaseMode)
-	for _, cs := range probe.Plan() {
+	for cs, more := probe.Next(); more; cs, more = probe.Next() {
 		{
 			custom, sc := cs.Custom, cs.Sc
 			probe.SetCase(cs)
